@@ -171,7 +171,7 @@ func panicRest(c *Ctx, dv *dev, fn *ssa.Function, pf *parserFacts, ff fnFacts) {
 		ruleChannelInvariant(c, dv, pf, "R13.5")
 	}
 	c.MinCount("R13.5", 3)
-	ruleR12(c, dv, collisionModes(c, "R13.9"), "R13.9") // keys still held release harmlessly: a release emits the Note Off of the recorded pair at most, in every mode - nothing that could start a sound
+	ruleR12(c, dv, collisionModes(c, "R13.9"), "R13.9")                // keys still held release harmlessly: a release emits the Note Off of the recorded pair at most, in every mode - nothing that could start a sound
 	c.importRules(checkC04, []string{"R4.7"}, "R13.8")                 // the panic key press is swallowed only by a real up/down pair reset
 	c.importRules(constructorRules, []string{"R5.1"}, "R13.6")         // every message of the burst is its own fresh 3-byte value (129 are in flight at once)
 	c.importRules(transportRules, []string{"R15.1", "R15.2"}, "R13.7") // and reaches the port once, unaltered
